@@ -69,20 +69,21 @@ class Controller:
                 return None
             time.sleep(0.0005)
 
-    def run_plan(self, plan, points):
+    def run_plan(self, plan, points, after_event=None):
         """plan: list of (pid, kind, where). Returns None when the run followed the plan, else a
-        description of the first divergence."""
+        description of the first divergence (with the index of the plan event)."""
         div = None
         rest_since = {}
-        for (pid, kind, where) in plan:
+        self.points = points
+        for idx, (pid, kind, where) in enumerate(plan):
             pr = self.procs[pid]
             if kind in ("poll", "stuck"):
                 if kind == "stuck" and pr.p is not None and pr.rc is None and pr.at != "exit":
-                    div = {"pid": pid, "what": "model says finished, process still running", "at": pr.at}
+                    div = {"pid": pid, "what": "model says finished, process still running", "at": pr.at, "index": idx, "done": False}
                     break
                 continue
             if pr.at == "exit":
-                div = {"pid": pid, "what": "model advances a process that has already exited", "rc": pr.rc}
+                div = {"pid": pid, "what": "model advances a process that has already exited", "rc": pr.rc, "index": idx, "done": False}
                 break
             t0 = time.time()
             first = pr.p is None
@@ -96,11 +97,44 @@ class Controller:
             rest_since[pid] = time.time()
             pr.waits.append(("spawn" if first else kind, where, round(dt, 4)))
             pr.at = got
+            if after_event:
+                after_event()
             if got != where:
                 div = {"pid": pid, "what": "process rests at %s, model at %s" % (got, where), "event": kind, "seconds": round(dt, 3),
-                       "stderr": pr.err[-300:] if got == "exit" else ""}
+                       "stderr": pr.err[-300:] if got == "exit" else "", "index": idx, "done": True}
                 break
         return div
+
+    def run_raw(self, pids, after_event=None, drain=True):
+        """Model-free continuation (used after a divergence): every entry releases that process and
+        waits until it rests at its next sync point or exits -- a lock attempt that finds the lock
+        held ends by itself with the (short) lock time-out. Then every process is run to its end,
+        in pid order."""
+        def one(pid):
+            pr = self.procs[pid]
+            if pr.at == "exit":
+                return
+            t0 = time.time()
+            first = pr.p is None
+            if first:
+                self._spawn(pr, self.points)
+            else:
+                self._release(pr)
+            got = self._wait(pr)
+            pr.waits.append(("raw-spawn" if first else "raw", got, round(time.time() - t0, 4)))
+            pr.at = got if got is not None else pr.at
+            if after_event:
+                after_event()
+            return got
+        for pid in pids:
+            one(pid)
+        if drain:
+            for pid in sorted(self.procs):
+                n = 0
+                while self.procs[pid].at != "exit" and n < 40:
+                    if one(pid) is None:
+                        break
+                    n += 1
 
     def finish(self):
         """Release everything that still waits and reap (used after a divergence, too)."""
